@@ -80,6 +80,7 @@ class Program:
         self.fns = {}       # unique path -> fn record
         self.adts = {}      # pretty path -> adt record
         self.unsafe_sites = []
+        self.statics = []        # (crate, {path, ty, mutable, thread_local, span})
         for c in CRATES:
             with open(os.path.join(factdir, c + ".json")) as fh:
                 raw = fh.read()
@@ -96,6 +97,8 @@ class Program:
                     self.adts[k] = a
             for u in j["unsafe_sites"]:
                 self.unsafe_sites.append((c, u))
+            for u in j.get("statics", []):
+                self.statics.append((c, u))
         # workspace types with a Drop impl: `drop` terminators on such values run code
         self.drop_impls = {}
         for f in self.fns.values():
